@@ -29,10 +29,25 @@
    membership, no header without an Origin); [cors_unrepaired] keeps the
    "!"-joined containment test of the pinned tree for the _refuted witness.
 
-   Outside the model: symbolic links, permissions, name length limits and all
-   other OS path semantics (the file tree is a finite map from clean rooted
-   paths below frontend/dist to regular files and directories); conditional
-   and range requests; check_webpack_1337 (false). *)
+   The file system is a finite map from clean rooted PHYSICAL paths below the
+   site root (the working directory of the process; "/" in the model) to
+   regular files, directories and symbolic links; frontend/dist is the
+   directory at [dist_at].  Opening a name follows links the way the OS does
+   ([walk]: component by component from the physical directory reached so
+   far, ".." pops physically, at most 40 links per lookup (Linux MAXSYMLINKS),
+   absolute targets restart at the site root).  http.Dir's mapOpenError is
+   modelled too ([map_open_error]).
+
+   F-C19-b (listed, not repaired): a link below dist whose target lies outside
+   dist is followed, so the bytes of a file outside dist are served.  The
+   model follows the code; [dom_C19] is the documented domain on which
+   "never serves a file outside that directory" is proved, and
+   [file_outside_refuted] is the witness off that domain.
+
+   Outside the model: frontend and frontend/dist themselves being links,
+   ".." above the site root ([WAbove]; the judge declines such cases),
+   permissions, special files, name length limits; conditional and range
+   requests; check_webpack_1337 (false). *)
 From PV Require Import Base.Bytes.
 
 Definition slash : ascii := "/"%char.
@@ -125,29 +140,143 @@ Definition inside (p : bytes) : bool :=
 
 (* ------------------------------------------------------------------ file tree *)
 
-Inductive node := Reg (content : bytes) | Dir.
-Definition tree := list (bytes * node).   (* clean rooted path below frontend/dist -> node; "/" is dist *)
+Inductive node := Reg (content : bytes) | Dir | Link (target : bytes).
+(* clean rooted physical path below the site root -> node; "/" is the site
+   root (the process's working directory), frontend/dist is at [dist_loc] *)
+Definition tree := list (bytes * node).
 
 Inductive opened := OReg (content : bytes) | ODir | OErrNotExist | OErrOther.
 
 Definition has_nul (p : bytes) : bool := existsb (Ascii.eqb zero) p.
 
+(* a physical location: its components, LAST FIRST ([] is the site root) *)
+Definition loc := list bytes.
+Definition path_of (l : loc) : bytes := slash :: join [slash] (rev l).
+
+Definition dist_loc : loc := [B "dist"; B "frontend"].
+
+(* physically inside frontend/dist: dist itself or something below it *)
+Definition below_dist (l : loc) : Prop := exists x, l = x ++ dist_loc.
+Definition below_distb (l : loc) : bool :=
+  match rev l with
+  | a :: b :: _ => beqb a (B "frontend") && beqb b (B "dist")
+  | _ => false
+  end.
+
+Inductive wres :=
+| WNode (at_ : loc) (n : node)  (* resolved: physical location and the node there (never a Link) *)
+| WNotExist                     (* ENOENT *)
+| WNotDir                       (* ENOTDIR *)
+| WLoop                         (* ELOOP: a 41st link *)
+| WAbove                        (* ".." at the site root: leaves what the tree describes *)
+| WFuel.                        (* never returned with [walk_fuel] (walk_fuel_enough) *)
+
+Definition max_links : nat := 40.   (* Linux MAXSYMLINKS: 40 links are followed, the 41st is ELOOP *)
+
+(* path resolution of open(2)/stat(2): [cur] is the physical directory
+   reached so far, [rest] the components still to go.  Empty and "."
+   components stay; ".." pops the PHYSICAL parent; a regular file with
+   anything after it (even an empty component, i.e. a trailing slash) is
+   ENOTDIR; a link splices its target in front of the rest (an absolute
+   target restarts at the site root). *)
+Fixpoint walk (fuel follows : nat) (t : tree) (cur : loc) (rest : list bytes) : wres :=
+  match fuel with
+  | O => WFuel
+  | S f =>
+    match rest with
+    | [] => WNode cur Dir
+    | c :: rest' =>
+      if beqb c [] || beqb c dot then walk f follows t cur rest'
+      else if beqb c dotdot then
+        match cur with
+        | [] => WAbove
+        | _ :: up => walk f follows t up rest'
+        end
+      else match lookup (path_of (c :: cur)) t with
+           | None => WNotExist
+           | Some (Reg b) => match rest' with [] => WNode (c :: cur) (Reg b) | _ => WNotDir end
+           | Some Dir => walk f follows t (c :: cur) rest'
+           | Some (Link tg) =>
+             match follows with
+             | O => WLoop
+             | S k =>
+               if nonemptyb tg
+               then walk f k t (if prefixb [slash] tg then [] else cur) (split_slash tg ++ rest')
+               else WNotExist
+             end
+           end
+    end
+  end.
+
+(* the longest link target of the tree, in components *)
+Fixpoint max_target (t : tree) : nat :=
+  match t with
+  | [] => O
+  | (_, Link tg) :: r => Nat.max (length (split_slash tg)) (max_target r)
+  | _ :: r => max_target r
+  end.
+
+(* every step either consumes a component or follows one of at most 40 links *)
+Definition walk_fuel (t : tree) (rest : list bytes) : nat :=
+  S (length rest + max_links * S (max_target t)).
+
+(* open/stat of the components [comps] relative to frontend/dist (which, with
+   frontend, is assumed to be a plain directory) *)
+Definition os_walk (t : tree) (comps : list bytes) : wres :=
+  walk (walk_fuel t comps) max_links t dist_loc comps.
+
+(* components of a clean rooted path: "/" -> [""], "/a/b" -> ["a"; "b"] *)
+Definition comps_of (p : bytes) : list bytes := split_slash (tl p).
+
+(* what the OS finds at the dist-relative clean rooted path [p] *)
+Definition os_resolve (t : tree) (p : bytes) : wres := os_walk t (comps_of p).
+
+(* net/http mapOpenError(originalErr, fullName, '/', os.Stat) for an error that
+   is neither ErrNotExist nor ErrPermission: stat every prefix of the name; a
+   prefix that cannot be stat-ed keeps the error, a prefix that is not a
+   directory turns it into ErrNotExist *)
+Fixpoint map_open_error (t : tree) (pre rest : list bytes) : opened :=
+  match rest with
+  | [] => OErrOther
+  | c :: r =>
+    if beqb c [] then map_open_error t pre r
+    else match os_walk t (pre ++ [c]) with
+         | WNode _ Dir => map_open_error t (pre ++ [c]) r
+         | WNode _ _ => OErrNotExist
+         | _ => OErrOther
+         end
+  end.
+
 (* http.Dir("frontend/dist/").Open(name): Clean, Localize (a NUL byte is an
-   error that is not ErrNotExist), os.Open; ENOENT and ENOTDIR are ErrNotExist *)
+   error that is not ErrNotExist), os.Open (follows links), mapOpenError *)
 Definition dir_open (t : tree) (name : bytes) : opened :=
   let p := dir_path name in
   if has_nul p then OErrOther
-  else match lookup p t with
-       | Some (Reg b) => OReg b
-       | Some Dir => ODir
-       | None => OErrNotExist
+  else match os_resolve t p with
+       | WNode _ (Reg b) => OReg b
+       | WNode _ Dir => ODir
+       | WNode _ (Link _) => OErrOther           (* impossible: walk_never_link *)
+       | WNotExist => OErrNotExist
+       | WNotDir | WLoop => map_open_error t [] (comps_of p)
+       | WAbove | WFuel => OErrOther             (* WAbove: outside the model; WFuel: impossible *)
        end.
+
+(* ---- the domain on which "never serves a file outside dist" is proved:
+   no link of the tree has an absolute target or a ".." component in its
+   target (sufficient, not necessary: sub/l -> ../a.txt stays inside too;
+   the judge uses the exact, per-request test [below_distb] on the
+   resolved location instead) *)
+Definition downward (tg : bytes) : bool :=
+  negb (prefixb [slash] tg) && negb (existsb (fun c => beqb c dotdot) (split_slash tg)).
+
+Definition dom_C19 (t : tree) : bool :=
+  forallb (fun e => match snd e with Link tg => downward tg | _ => true end) t.
 
 (* assetFileSystem.Open *)
 Definition afs_open (t : tree) (name : bytes) : opened :=
   match dir_open t (afs_path name) with
   | OReg b => OReg b
-  | ODir => OErrOther            (* errors.New("not allowed") *)
+  | ODir => OErrOther            (* f.Stat() is fstat of the opened, resolved file: errors.New("not allowed") *)
   | OErrNotExist => OErrNotExist
   | OErrOther => OErrOther
   end.
